@@ -241,6 +241,33 @@ func c04Trunc(c *Ctx) {
 
 // mustValidate: every success return of ctor is dominated by err==nil of a
 // call to validator.
+// ensuresValidator: every success return of helper h (a function of the
+// validator's module) is dominated by validator(…) == nil, directly or through
+// one more helper.
+func ensuresValidator(h, validator *ssa.Function, depth int) bool {
+	if h == nil || h.Blocks == nil || depth > 2 || core.FuncClass(h) != core.Product {
+		return false
+	}
+	rets := guard.SuccessReturns(h)
+	if len(rets) == 0 {
+		return false
+	}
+	for _, ret := range rets {
+		ok := false
+		for _, fct := range guard.BlockFacts(ret.Block()) {
+			if ec, isNil, isE := guard.ErrNilFact(fct); isE && isNil {
+				if ec.Call.StaticCallee() == validator || ensuresValidator(ec.Call.StaticCallee(), validator, depth+1) {
+					ok = true
+				}
+			}
+		}
+		if !ok {
+			return false
+		}
+	}
+	return true
+}
+
 func mustValidate(c *Ctx, rule string, ctor, validator *ssa.Function) {
 	p, r := c.P, c.R
 	key := fmt.Sprintf("%s/%s/passes %s", rule, core.FuncID(ctor), validator.Name())
@@ -248,8 +275,10 @@ func mustValidate(c *Ctx, rule string, ctor, validator *ssa.Function) {
 	for _, ret := range guard.SuccessReturns(ctor) {
 		ok := false
 		for _, fct := range guard.BlockFacts(ret.Block()) {
-			if ec, isNil, isE := guard.ErrNilFact(fct); isE && isNil && ec.Call.StaticCallee() == validator {
-				ok = true
+			if ec, isNil, isE := guard.ErrNilFact(fct); isE && isNil {
+				if ec.Call.StaticCallee() == validator || ensuresValidator(ec.Call.StaticCallee(), validator, 0) {
+					ok = true
+				}
 			}
 		}
 		if !ok {
